@@ -92,6 +92,28 @@ example :
                            undefs := ["FOO".toList], standard := "c++17".toList } := by
   decide +kernel
 
+/-- **the specification is the inverse of writing a command line**: for every list of options (any length)
+    whose values are non-empty and whose "other" arguments are not spelled like an interpreted option,
+    GCC's reading of the rendered vector is the meaning of the list -/
+theorem spec_of_render (l : List Opt) (h : ∀ x ∈ l, x.wf = true) : gcc (render l) {} = meaning l {} :=
+  gcc_render l h {}
+
+/-- **C32 in generator form**: the options `parseArgs` recovers from a rendered command line are the options
+    that were put into it -/
+theorem parseArgs_render (l : List Opt) (hwf : ∀ x ∈ l, x.wf = true) (hc : clean (render l) = true)
+    (hd : ∀ d ∈ (meaning l {}).defines, defOk d = true) :
+    parseArgs (render l) = some (meaning l {}).toFS := by
+  have := parseArgs_eq_spec_partial (render l) hc (by rw [spec_of_render l hwf]; exact hd)
+  rw [spec_of_render l hwf] at this
+  exact this
+
+example :
+    let l : List Opt := [.other "cc".toList, .define "A".toList true, .define "B=2".toList false,
+      .inc "/home/u/inc".toList false, .sysinc "sys".toList true, .undef "C".toList true, .std "c11".toList,
+      .flag "-fpie".toList, .sepOther "-o".toList "/tmp/a.o".toList, .other "-c".toList, .other "/home/u/a.c".toList]
+    l.all Opt.wf = true ∧ clean (render l) = true ∧ (meaning l {}).defines.all defOk = true := by
+  decide +kernel
+
 /-- every option name in `sepOpts` is itself harmless to `parseArgs` -/
 theorem sepOpts_otherOk : sepOpts.all otherOk = true := by decide +kernel
 
